@@ -257,6 +257,11 @@ JAX_TRACER_ERRORS = ("ConcretizationTypeError", "TracerBoolConversionError", "Tr
                      "TracerIntegerConversionError", "NonConcreteBooleanIndexError", "UnexpectedTracerError")
 
 
+# piquasso's own refusals of an invalid program / parameter / state
+VALIDATION_ERRORS = ("InvalidParameter", "InvalidState", "InvalidModes", "InvalidInstruction", "InvalidProgram",
+                     "InvalidSimulation", "PiquassoException")
+
+
 def has_euler_gate(sim, instructions):
     return sim == "pure_fock" and any(i[0] in EULER_GATES for i in instructions)
 
@@ -318,35 +323,49 @@ def gen_pure_fock(rng, d, cutoff, ngates, modes):
 
 
 def gen_gaussian(rng, d, cutoff, ngates, modes):
+    """correlate (squeeze, displace, mix every mode) -> active gate on a strict subset of the modes
+    -> mix again; observables include the phaseshifter expectation value with distinct angles"""
     instr = [["Vacuum", "all", {}]]
     traced = {}
-    for _ in range(ngates):
-        k = rng.random()
+
+    def bs():
         a = rng.randrange(d)
-        b = rng.choice([x for x in range(d) if x != a]) if d > 1 else a
-        if k < 0.3 and d > 1:
-            g = ["Beamsplitter", [a, b], {"theta": rfloat(rng, -3, 3), "phi": rfloat(rng, -3, 3)}]
-        elif k < 0.5:
-            g = ["Squeezing", [a], {"r": rfloat(rng, 0.05, 0.4), "phi": rfloat(rng, -3, 3)}]
-        elif k < 0.7:
-            g = ["Displacement", [a], {"r": rfloat(rng, 0.05, 0.5), "phi": rfloat(rng, -3, 3)}]
-        elif k < 0.8:
-            g = ["Phaseshifter", [a], {"phi": rfloat(rng, -3, 3)}]
-        elif k < 0.9 and d > 1:
-            g = ["Squeezing2", [a, b], {"r": rfloat(rng, 0.05, 0.3), "phi": rfloat(rng, -3, 3)}]
-        elif d > 1:
-            sub = sorted(rng.sample(range(d), rng.randint(2, d)))
-            rng.shuffle(sub)
-            g = ["Interferometer", sub, {"matrix": unitary(rng, len(sub))}]
-        else:
-            g = ["Fourier", [a], {}]
-        if not traced and g[0] in ("Beamsplitter", "Squeezing", "Displacement"):
-            key = {"Beamsplitter": "theta", "Squeezing": "r", "Displacement": "r"}[g[0]]
-            traced[str(len(instr))] = {key: g[2][key]}
-        instr.append(g)
+        b = rng.choice([x for x in range(d) if x != a])
+        return ["Beamsplitter", [a, b], {"theta": rfloat(rng, 0.3, 1.2) * rng.choice([-1, 1]), "phi": rfloat(rng, -3, 3)}]
+
+    def active(strict):
+        a = rng.randrange(d)
+        k = rng.random()
+        if k < 0.45 or d < 3 or not strict:
+            return rng.choice([["Squeezing", [a], {"r": rfloat(rng, 0.1, 0.4), "phi": rfloat(rng, -3, 3)}],
+                               ["QuadraticPhase", [a], {"s": rfloat(rng, 0.1, 0.5)}]])
+        b = rng.choice([x for x in range(d) if x != a])
+        return rng.choice([["Squeezing2", [a, b], {"r": rfloat(rng, 0.1, 0.3), "phi": rfloat(rng, -3, 3)}],
+                           ["ControlledX", [a, b], {"s": rfloat(rng, 0.1, 0.4)}]])
+
+    for m in range(d):
+        instr.append(["Squeezing", [m], {"r": rfloat(rng, 0.1, 0.4), "phi": rfloat(rng, -3, 3)}])
+    instr.append(["Displacement", [rng.randrange(d)], {"r": rfloat(rng, 0.1, 0.5), "phi": rfloat(rng, -3, 3)}])
+    if d > 1:
+        for _ in range(d):
+            instr.append(bs())
+        traced[str(len(instr) - 1)] = {"theta": instr[-1][2]["theta"]}
+    for _ in range(max(1, ngates - 2)):
+        instr.append(active(strict=True))
+        if d > 1:
+            k = rng.random()
+            if k < 0.6:
+                instr.append(bs())
+            elif k < 0.8:
+                sub = sorted(rng.sample(range(d), rng.randint(2, d)))
+                rng.shuffle(sub)
+                instr.append(["Interferometer", sub, {"matrix": unitary(rng, len(sub))}])
+            else:
+                instr.append(["Phaseshifter", [rng.randrange(d)], {"phi": rfloat(rng, -3, 3)}])
     occs = [[0] * d, [1] + [0] * (d - 1)] + ([[1] * d] if cutoff > d else [])
+    angles = [round(0.3 + 0.8 * i + 0.3 * rng.random(), 6) for i in range(d)]
     return {"sim": "gaussian", "d": d, "cutoff": cutoff, "instructions": instr, "occupations": occs,
-            "traced": traced, "modes": modes}
+            "traced": traced, "modes": modes, "angles": angles}
 
 
 def gen_passive(rng, sim, d, cutoff, ngates, modes):
@@ -364,12 +383,20 @@ def gen_passive(rng, sim, d, cutoff, ngates, modes):
         k = rng.random()
         a = rng.randrange(d)
         b = rng.choice([x for x in range(d) if x != a]) if d > 1 else a
+        if sim == "fermionic_fock" and d > 1:
+            # the fermionic Fock simulator documents and validates consecutive ascending modes
+            # ("Specified modes must be consecutive"); other mode tuples are outside its domain
+            a = rng.randrange(d - 1)
+            b = a + 1
         if k < 0.5 and d > 1:
             g = ["Beamsplitter", [a, b], {"theta": rfloat(rng, -3, 3), "phi": rfloat(rng, -3, 3)}]
         elif k < 0.7:
             g = ["Phaseshifter", [a], {"phi": rfloat(rng, -3, 3)}]
         elif d > 1:
             sub = sorted(rng.sample(range(d), rng.randint(2, d)))
+            if sim == "fermionic_fock":
+                lo = rng.randrange(d - 1)
+                sub = list(range(lo, rng.randint(lo + 2, d)))
             if sim == "passive":
                 rng.shuffle(sub)
             g = ["Interferometer", sub, {"matrix": unitary(rng, len(sub))}]
@@ -387,32 +414,61 @@ def gen_passive(rng, sim, d, cutoff, ngates, modes):
             "traced": traced, "modes": modes}
 
 
+def gen_history(rng, sim, d, cutoff, modes):
+    """a prepared state used as `initial_state` of two further programs and read again afterwards;
+    the first follow-up contains instructions that update the state through connector.assign"""
+    if sim == "pure_fock":
+        prog = gen_pure_fock(rng, d, cutoff, 3, modes)
+        prog["instructions"] = [i for i in prog["instructions"] if i[0] not in EULER_GATES]
+        a, b = 0, d - 1
+        first = [["CrossKerr", [a, b], {"xi": rfloat(rng, 0.3, 1.0)}] if d > 1 else ["Kerr", [0], {"xi": rfloat(rng, 0.3, 1.0)}],
+                 ["Displacement", [a], {"r": rfloat(rng, 0.05, 0.3), "phi": rfloat(rng, -3, 3)}]]
+        second = [["Displacement", [b], {"r": rfloat(rng, 0.05, 0.3), "phi": rfloat(rng, -3, 3)}],
+                  ["Kerr", [a], {"xi": rfloat(rng, -1, 1)}]]
+    else:
+        prog = gen_gaussian(rng, d, cutoff, 3, modes)
+        first = [["Squeezing", [0], {"r": rfloat(rng, 0.1, 0.4), "phi": rfloat(rng, -3, 3)}],
+                 ["Displacement", [d - 1], {"r": rfloat(rng, 0.1, 0.4), "phi": rfloat(rng, -3, 3)}]]
+        second = [["Beamsplitter", [0, d - 1], {"theta": rfloat(rng, 0.3, 1.2), "phi": rfloat(rng, -3, 3)}]] if d > 1 else \
+                 [["Phaseshifter", [0], {"phi": rfloat(rng, -3, 3)}]]
+    prog["followups"] = [first, second]
+    prog["modes"] = [m for m in modes if m != "jaxjit"]
+    prog["traced"] = {}
+    return prog
+
+
 def gen_programs(rng, thorough):
     progs = []
     if thorough:
         for cutoff in (1, 2, 3, 4, 5):
             for rep in range(6):
                 d = rng.randint(1, 3) if cutoff >= 4 else rng.randint(1, 4)
-                modes = ["np", "tf", "tff", "jax", "jaxjit"] if rep < 3 else ["np", "tf", "tff", "jaxjit"]
+                modes = ["np", "npf", "tf", "tff", "jax", "jaxjit"] if rep < 3 else ["np", "npf", "tf", "tff", "jaxjit"]
                 progs.append(gen_pure_fock(rng, d, cutoff, rng.randint(2, 7), modes))
-        for rep in range(8):
-            progs.append(gen_gaussian(rng, rng.randint(1, 3), rng.randint(2, 5), rng.randint(2, 6),
-                                      ["np", "jax", "jaxjit"] if rep < 3 else ["np", "jax"]))
+        for rep in range(10):
+            progs.append(gen_gaussian(rng, rng.randint(2, 4) if rep else 3, rng.randint(2, 4), rng.randint(3, 5),
+                                      ["np", "npf", "jax", "jaxjit"]))
         for sim in ("passive", "fermionic_fock", "fermionic_gaussian"):
             for rep in range(6):
                 d = rng.randint(2, 4)
                 progs.append(gen_passive(rng, sim, d, rng.randint(2, 5) if sim == "passive" else d + 1,
-                                         rng.randint(2, 5), ["np", "jax", "jaxjit"] if rep < 2 else ["np", "jax"]))
+                                         rng.randint(2, 5), ["np", "npf", "jax", "jaxjit"] if rep < 2 else ["np", "npf", "jax"]))
+        for rep in range(4):
+            progs.append(gen_history(rng, "pure_fock", rng.randint(1, 3), rng.randint(3, 5), ["np", "npf", "tf", "tff", "jax"]))
+            progs.append(gen_history(rng, "gaussian", rng.randint(1, 3), 3, ["np", "npf", "jax"]))
     else:
         # every cutoff 1..5 on the pure Fock simulator; eager JAX is slow, so it runs on two
         for cutoff in (1, 2, 3, 4, 5):
             d = 2 if cutoff >= 4 else 3
-            modes = ["np", "tf", "tff", "jaxjit"] + (["jax"] if cutoff in (2, 3) else [])
+            modes = ["np", "npf", "tf", "tff", "jaxjit"] + (["jax"] if cutoff == 2 else [])
             progs.append(gen_pure_fock(rng, d, cutoff, 4, modes))
-        progs.append(gen_gaussian(rng, 2, 3, 3, ["np", "jax"]))
-        progs.append(gen_passive(rng, "passive", 3, 3, 3, ["np", "jax"]))
-        progs.append(gen_passive(rng, "fermionic_fock", 3, 4, 3, ["np", "jax"]))
-        progs.append(gen_passive(rng, "fermionic_gaussian", 3, 4, 3, ["np", "jax"]))
+        progs.append(gen_gaussian(rng, 3, 3, 3, ["np", "npf", "jax", "jaxjit"]))
+        progs.append(gen_gaussian(rng, 2, 3, 3, ["np", "npf", "jaxjit"]))
+        progs.append(gen_passive(rng, "passive", 3, 3, 3, ["np", "npf", "jax"]))
+        progs.append(gen_passive(rng, "fermionic_fock", 3, 4, 3, ["np", "npf", "jax"]))
+        progs.append(gen_passive(rng, "fermionic_gaussian", 3, 4, 3, ["np", "npf", "jax"]))
+        progs.append(gen_history(rng, "pure_fock", 2, 4, ["np", "npf", "tf", "jax"]))
+        progs.append(gen_history(rng, "gaussian", 2, 3, ["np", "npf", "jax"]))
     return progs
 
 
@@ -432,9 +488,21 @@ def compare_programs(chk, progs, results, tol):
     notes = {}
     for prog, res in zip(progs, results):
         small = prog["cutoff"] <= 2 and prog["sim"] == "pure_fock"
-        ref = res.get("np")
-        modes = [m for m in res if m != "np"]
+        for m in res:
+            sk = res[m].pop("_skipped_under_jit", None) if isinstance(res[m], dict) else None
+            for name, e in (sk or {}).items():
+                tag = "observable not traceable by jax.jit: %s.%s (%s)" % (prog["sim"], obs_base(name), e)
+                notes[tag] = notes.get(tag, 0) + 1
         ok_modes = [m for m in res if "exc" not in res[m]]
+        eager = [m for m in res if m != "jaxjit"]
+        if eager and all("exc" in res[m] and res[m]["exc"] in VALIDATION_ERRORS for m in eager) \
+                and len({res[m]["exc"] for m in eager}) == 1:
+            # every eager connector refuses the program with the same validation error; the jax.jit run
+            # is made with Config(validate=False) (validation cannot be traced), so its answer is not
+            # a connector dependence
+            notes["refused by validation on every eager connector"] = notes.get(
+                "refused by validation on every eager connector", 0) + 1
+            continue
         if not ok_modes:
             # every connector refuses the program: no result depends on the connector
             notes["all connectors raise"] = notes.get("all connectors raise", 0) + 1
